@@ -2,6 +2,7 @@ package props
 
 import (
 	"fmt"
+	"sort"
 	"strings"
 	"sync"
 	"time"
@@ -23,6 +24,7 @@ type c06Point struct {
 type c06Group struct {
 	A, B   string
 	M      string
+	WFloat bool // field w is a float in this group and an integer in the others
 	Points []c06Point
 }
 
@@ -38,7 +40,7 @@ type c06Scenario struct {
 var c06Nodes = []string{
 	"|where(lambda: \"v\" > 2)",
 	"|eval(lambda: sigma(\"v\")).as('s').keep()",
-	"|eval(lambda: count(\"v\")).as('c').keep()",
+	"|eval(lambda: count()).as('c').keep()",
 	"|eval(lambda: spread(\"v\")).as('sp').keep()",
 	"|stateCount(lambda: \"v\" > 2)",
 	"|stateDuration(lambda: \"v\" > 2).unit(1s)",
@@ -50,6 +52,10 @@ var c06Nodes = []string{
 	"|where(lambda: \"opt\" > 1)",
 	"|eval(lambda: \"opt\" + 1).as('o1').keep()",
 	"|default().field('opt', 0)",
+	"|window().period(3s).every(3s)\n    |sum('w')",
+	"|window().period(3s).every(3s)\n    |mean('w')",
+	"|cumulativeSum('w')",
+	"|difference('w')",
 }
 
 func lpEscape(s string) string {
@@ -79,7 +85,7 @@ func c06Gen(c *Ctx) *c06Scenario {
 	ng := g.Range(2, 4)
 	seen := map[string]bool{}
 	for len(sc.Groups) < ng {
-		gr := c06Group{A: as[g.Intn(len(as))], B: bs[g.Intn(len(bs))], M: "m"}
+		gr := c06Group{A: as[g.Intn(len(as))], B: bs[g.Intn(len(bs))], M: "m", WFloat: g.Chance(1, 3)}
 		if sc.ByM && g.Bool() {
 			gr.M = "m2"
 		}
@@ -166,7 +172,10 @@ func c06Run(c *Ctx, sc *c06Scenario, only int) (map[int][]string, Verdict) {
 			go func(gi int, gr c06Group) {
 				defer wg.Done()
 				for i, p := range gr.Points {
-					fields := fmt.Sprintf("v=%di,gi=%di,s=%di", p.V, gi, i)
+					fields := fmt.Sprintf("v=%di,gi=%di,s=%di,w=%di", p.V, gi, i, p.V+1)
+					if gr.WFloat {
+						fields = fmt.Sprintf("v=%di,gi=%di,s=%di,w=%d.5", p.V, gi, i, p.V)
+					}
 					if p.Opt >= 0 {
 						fields += fmt.Sprintf(",opt=%di", p.Opt)
 					}
@@ -220,7 +229,108 @@ func c06Run(c *Ctx, sc *c06Scenario, only int) (map[int][]string, Verdict) {
 	return out, Verdict{}
 }
 
+// c06Retag: a node after the groupBy rewrites a group-by tag. Points that then agree on every group-by tag value
+// are one group, whatever group they were in before.
+type c06RetagScenario struct {
+	Kind    string `json:"kind"`
+	N       [3]int `json:"points"` // writer 0: a=1 explicitly, writer 1: tag a missing (default gives a=1), writer 2: a=2
+	Script  string `json:"script"`
+	Config  string `json:"config"`
+	Counter string `json:"counter"`
+}
+
+func runC06Retag(c *Ctx) Verdict {
+	g := c.G
+	sc := &c06RetagScenario{Kind: "retag", N: [3]int{g.Range(1, 6), g.Range(1, 6), g.Range(0, 4)}}
+	sc.Counter = []string{"|eval(lambda: count()).as('c').keep()", "|stateCount(lambda: \"v\" >= 0).as('c')", "|cumulativeSum('one').as('c')"}[g.Intn(3)]
+	sc.Script = "stream\n    |from().groupBy('a')\n    |default().tag('a', '1')\n    " + sc.Counter + "\n    |log().prefix('OUT')\n"
+	c.Scenario = sc
+	cfg := c.WorldConfig()
+	delete(cfg.Knobs, "MinimumEventBufferSize")
+	delete(cfg.Knobs, "DefaultEventBufferSize")
+	cfg.MaxSteps = 3_000_000
+	sc.Config = fmt.Sprintf("%v p=%.2f pool=%d", cfg.Strategy, cfg.SwitchProb, cfg.PoolMode)
+	var verdict Verdict
+	var d *harness.Daemon
+	res := c.World(cfg, func() {
+		var err error
+		d, err = harness.NewDaemon(harness.DaemonOpts{})
+		if err != nil {
+			verdict = Fail("harness/setup", "daemon: %v", err)
+			return
+		}
+		task, err := d.Define("G", sc.Script, kapacitor.StreamTask, []kapacitor.DBRP{{Database: "db", RetentionPolicy: "rp"}})
+		if err != nil {
+			verdict = Fail("harness/setup", "define: %v\n%s", err, sc.Script)
+			return
+		}
+		if _, err := d.TM.StartTask(task); err != nil {
+			verdict = Fail("harness/setup", "start: %v", err)
+			return
+		}
+		var wg sync.WaitGroup
+		for w := 0; w < 3; w++ {
+			wg.Add(1)
+			go func(w int) {
+				defer wg.Done()
+				tag := []string{",a=1", "", ",a=2"}[w]
+				for i := 0; i < sc.N[w]; i++ {
+					line := fmt.Sprintf("m%s v=%di,one=1i,w=%di %d\n", tag, i, w, int64(i+1)*int64(time.Second))
+					if code := d.WriteLine("db", "rp", line); code != 204 {
+						verdict = Fail("harness/setup", "write rejected %d: %s", code, line)
+					}
+				}
+			}(w)
+		}
+		done := simrt.Expect("writers finish", 3_000_000, time.Hour)
+		wg.Wait()
+		done()
+		simrt.Fair()
+		simrt.WaitIdle()
+	})
+	if v, bad := WorldVerdict(res, false); bad {
+		return v
+	}
+	if verdict.Class != "" {
+		return verdict
+	}
+	counts := map[string][]int{}
+	for _, o := range d.Sinks.Get("OUT") {
+		if o.Copy == nil {
+			return Fail("harness/parse", "unexpected batch output")
+		}
+		a := o.Copy.Tags["a"]
+		if a != "1" && a != "2" {
+			return Fail("unattributable-output", "an output carries a=%q after default().tag('a','1'): %v", a, o.Copy.Tags)
+		}
+		cv, ok := o.Copy.Fields["c"].(int64)
+		if !ok {
+			return Fail("harness/parse", "output without integer counter field c: %v", o.Copy.Fields)
+		}
+		counts[a] = append(counts[a], int(cv))
+	}
+	wants := map[string]int{"1": sc.N[0] + sc.N[1], "2": sc.N[2]}
+	for _, a := range []string{"1", "2"} {
+		want := wants[a]
+		got := append([]int(nil), counts[a]...)
+		sort.Ints(got)
+		ok := len(got) == want
+		for i := 0; ok && i < len(got); i++ {
+			ok = got[i] == i+1
+		}
+		if !ok {
+			v := Fail("group-identity", "after default().tag('a','1') every point with a=%s is one group of %d points (%d written with a=1, %d without the tag), so its per-group counter must take the values 1..%d; observed counter values (sorted): %v\nscript:\n%s\nerrors: %v\nlog: %s", a, want, sc.N[0], sc.N[1], want, got, sc.Script, firstN(d.Sinks.Errs, 3), d.LogHead(600))
+			v.Shape = map[string]interface{}{"kind": "retag"}
+			return v
+		}
+	}
+	return Pass()
+}
+
 func runC06(c *Ctx) Verdict {
+	if c.G.Chance(1, 8) {
+		return runC06Retag(c)
+	}
 	sc := c06Gen(c)
 	c.Scenario = sc
 	if len(sc.Groups) < 2 {
@@ -282,7 +392,8 @@ func init() {
 	Register(&Prop{
 		ID:  "C06",
 		Run: runC06,
-		Rule: "case = from().groupBy('a') or ('a','b') [+groupByMeasurement] followed by 1-3 nodes from 14 grouping-aware node forms (where, eval with the stateful functions sigma/count/spread, stateCount, stateDuration, derivative, changeDetect, sample, window+sum, alert with stateChangesOnly, predicates and evals over a field that is present in only some points, default) over 2-4 groups whose tag values contain ',', '=', spaces and prefixes of one another (including pairs that serialise to the same 'k=v,k=v' string); run A feeds all groups with one concurrent writer each, runs B_g feed group g alone, every run under its own seeded schedule and sync.Pool behaviour; " +
+		Rule: "case = from().groupBy('a') or ('a','b') [+groupByMeasurement] followed by 1-3 nodes from 14 grouping-aware node forms (where, eval with the stateful functions sigma/count/spread, stateCount, stateDuration, derivative, changeDetect, sample, window+sum, alert with stateChangesOnly, predicates and evals over a field that is present in only some points, default, and window+sum/mean, cumulativeSum, difference over a field that is a float in some groups and an integer in others) over 2-4 groups whose tag values contain ',', '=', spaces and prefixes of one another (including pairs that serialise to the same 'k=v,k=v' string); run A feeds all groups with one concurrent writer each, runs B_g feed group g alone, every run under its own seeded schedule and sync.Pool behaviour; " +
+			"one case in eight instead rewrites the group-by tag after the groupBy (default().tag) for points written with and without the tag by two concurrent writers and requires one per-group counter (count(), stateCount, cumulativeSum) over their union; " +
 			"non-trivial = some group produced output; distinct = distinct (scenario, interleaving signatures) tuples",
 		Real:        []string{"FromNode/groupBy, edge.GroupedConsumer, models.ToGroupID", "WhereNode, EvalNode + tick/stateful (Expression.CopyReset, ScopePool), StateTracking nodes, DerivativeNode, ChangeDetectNode, SampleNode, WindowNode + InfluxQLNode, AlertNode, DefaultNode", "TaskMaster, httpd write endpoint"},
 		Stub:        []string{"log sink at the end of the chain"},
